@@ -253,16 +253,28 @@ Proof.
         cbn [items_holders item_holders map concat app done_ids dones countN] in *. lia.
       - specialize (T []). rewrite count_cmds_app.
         cbn [items_holders item_holders cmd_holders map concat app done_ids dones countN] in *. lia. }
-    destruct (c_state c) as [[]|]; try exact G. intros [= <- <-]. cbn [done_ids dones map concat app fst countN]. lia.
+    destruct (c_state c) as [[]|]; try exact G; intros [= <- <-]; cbn [done_ids dones map concat app fst countN]; lia.
   - (* stream close *)
     destruct (get_s ob (base s)) as [x|]; [|discriminate].
-    pose proof (count_tset items_holders [] eq_refl w (sclosing s) ob) as T.
-    rewrite (tfind_tget [] (sclosing s) ob) in T.
-    destruct (tfind (sclosing s) ob) as [items|]; intros [= <- <-]; unfold hcount; cbn [wbs wcs cclosing sclosing cmds].
-    + specialize (T (items ++ [CbWaiter wt])). rewrite items_holders_app, countN_app in T.
-      cbn [items_holders item_holders map concat app done_ids dones countN] in *. lia.
-    + specialize (T [CbWaiter wt]). rewrite count_cmds_app.
-      cbn [items_holders item_holders cmd_holders map concat app done_ids dones countN] in *. lia.
+    assert (G : match tfind (sclosing s) ob with
+                | Some items =>
+                    Some ({| base := base s; cls := cls s; sls := sls s; gcl := gcl s; gsl := gsl s; wbs := wbs s; wcs := wcs s;
+                             cclosing := cclosing s; sclosing := tset (sclosing s) ob (items ++ [CbWaiter wt]); cmds := cmds s |}, [])
+                | None =>
+                    let ok := kmem fst (s_id x) (streams (base s)) in
+                    Some ({| base := base s; cls := cls s; sls := sls s; gcl := gcl s; gsl := gsl s; wbs := wbs s; wcs := wcs s;
+                             cclosing := cclosing s; sclosing := tset (sclosing s) ob [CbWaiter wt]; cmds := cmds s ++ [CmdS ob wt ok] |},
+                          [NCmd 1 (s_id x)])
+                end = Some (s', es) ->
+                (hcount w s + countN w [wt] = hcount w s' + countN w (done_ids es))%nat).
+    { pose proof (count_tset items_holders [] eq_refl w (sclosing s) ob) as T.
+      rewrite (tfind_tget [] (sclosing s) ob) in T.
+      destruct (tfind (sclosing s) ob) as [items|]; intros [= <- <-]; unfold hcount; cbn [wbs wcs cclosing sclosing cmds].
+      + specialize (T (items ++ [CbWaiter wt])). rewrite items_holders_app, countN_app in T.
+        cbn [items_holders item_holders map concat app done_ids dones countN] in *. lia.
+      + specialize (T [CbWaiter wt]). rewrite count_cmds_app.
+        cbn [items_holders item_holders cmd_holders map concat app done_ids dones countN] in *. lia. }
+    destruct (s_state x) as [[]|]; try exact G; intros [= <- <-]; cbn [done_ids dones map concat app fst countN]; lia.
   - (* acknowledgement *)
     destruct (cmds s) as [|[ob wt ok|ob wt ok] q] eqn:Ec.
     + intros [= <- <-]. cbn. lia.
@@ -368,18 +380,21 @@ Proof.
   intros L H. destruct (legal8_fresh ops ls0 L) as [ND _]. now apply (waits_at_most_once rts ops tr w H ND).
 Qed.
 
-(* ================================================================ the two open findings, on the model *)
+(* ================================================================ the witnesses of the two repaired findings *)
+(* C08-F1 (Stream.close after CLOSED/FAILED never completed) and C08-F2 (Circuit.close on a FAILED circuit
+   re-chained an earlier waiter): after the repairs (ce7627d, b4f1a1d) the same histories are accepted *)
 Definition wit_F1 : list op :=
   [OEv (EStream 1 SNew 0 0 80 [(4, 70004)]); OEv (EStream 1 SClosed 0 0 80 [(2, 5)]); OSClose 0 1; OAck].
 Definition wit_F2 : list op :=
   [OEv (ECirc 1 CLaunched [] [(0, 0)]); OCClose 0 1; OEv (ECirc 1 CFailed [] [(2, 1)]); OCClose 0 2; OAck; OAck].
 
-Lemma stream_close_after_gone_refuted :
-  exists ops tr, legal8 ops = true /\ stream_close_after_gone ops = true /\ circuit_close_after_failed ops = false /\
-                 xrun [] ops = Some tr /\ oracle8 ops tr = false.
-Proof. exists wit_F1. eexists. repeat split; vm_compute; reflexivity. Qed.
+Lemma stream_close_after_gone_now_accepted :
+  legal8 wit_F1 = true /\ xrun [] wit_F1 = Some [[]; []; [NDone 1 (WOkS 0)]; []] /\
+  oracle8 wit_F1 [[]; []; [NDone 1 (WOkS 0)]; []] = true.
+Proof. vm_compute. repeat split; reflexivity. Qed.
 
-Lemma circuit_close_after_failed_refuted :
-  exists ops tr, legal8 ops = true /\ circuit_close_after_failed ops = true /\ stream_close_after_gone ops = false /\
-                 xrun [] ops = Some tr /\ oracle8 ops tr = false.
-Proof. exists wit_F2. eexists. repeat split; vm_compute; reflexivity. Qed.
+Lemma circuit_close_after_failed_now_accepted :
+  legal8 wit_F2 = true /\
+  xrun [] wit_F2 = Some [[]; [NCmd 0 1]; []; [NDone 2 WOkNone]; [NDone 1 WOkNone]; []] /\
+  oracle8 wit_F2 [[]; [NCmd 0 1]; []; [NDone 2 WOkNone]; [NDone 1 WOkNone]; []] = true.
+Proof. vm_compute. repeat split; reflexivity. Qed.
